@@ -1,7 +1,8 @@
 (* C12 - BBR survives any QUIC-consistent event sequence with sane outputs.
    Property theorems only; every proof is `exact <lemma>` (or a two-line combination) from proof/C12_*.v.
    Layer 1: the containers (ring buffer, packet-number-indexed queue, windowed filter). *)
-From Hy Require Import lib.Res model.C12_Queue model.C12_Sender proof.C12_Ring proof.C12_PQ proof.C12_Layer1 proof.C12_Sender.
+From Hy Require Import lib.Res lib.F64 lib.F64x model.C12_Queue model.C12_Sender model.C12_Full
+  proof.C12_Ring proof.C12_PQ proof.C12_Layer1 proof.C12_Sender proof.C12_Arith proof.C12_Full.
 From Coq Require Import ZArith List Bool Lia.
 Import ListNotations.
 Local Open Scope Z_scope.
@@ -321,3 +322,176 @@ Example C12_consistent_example :
   quic_consistent 1200 [QSent 0 1200 true; QSent 1 50 false; QSent 3 1200 true; QSent 4 1200 true;
                         QCong [(3, 1200)] [(0, 1200)]; QSetMds 1452; QSent 7 1452 true; QCong [] [(4, 1200)]] = true.
 Proof. vm_compute. reflexivity. Qed.
+
+(* ================================================================== layer 3: the whole sender, no oracles ===========
+   model/C12_Full.v is the complete bbrSender + bandwidthSampler + maxAckHeightTracker + pacer as a deterministic LTS
+   over the calls QUIC makes; its floating-point computations are binary64 on Coq's primitive floats, so the
+   primitives (PrimFloat.*, and the float type) are listed by Print Assumptions below - no property of a float
+   result is used in any proof (FloatAxioms does not appear).  Every theorem quantifies over ALL profile
+   configurations `P` (any gains, any flags), of which the three shipped profiles are instances, over every
+   newBbrSender(m, icw, mcw) with 4 datagrams <= icw <= mcw <= 20000 datagrams, and over every sequence of calls
+   that is well-formed in the sense of `fevs_ok` (proof/C12_Full.v), which every quic_consistent history of quic-go
+   satisfies and which asks much less: event times are monotime values (0 < t < 2^62), rttStats.MinRTT() is an int64
+   and non-zero when a congestion event is delivered, packet numbers / sizes / the random draw are non-negative, a
+   congestion event carries at least one packet, datagram sizes do not decrease and stay <= MaxPacketBufferSize.
+   Packet numbers need NOT increase, acked / lost packets need NOT have been sent, times need NOT be monotone. *)
+
+(* (a) No call ever panics: not the ring pops of chooseA0Point (including its loop whose bound shrinks while it pops),
+   not Front / Back / Offset, not Emplace / GetEntry / RemoveUpTo of the connection-state map, not
+   lostPackets[len-1], not pacingGain[cycleCurrentOffset], not an integer division (BandwidthFromDelta's delta,
+   scaleByteWindowForDatagramSize), not SetMaxDatagramSize - and the run ends in a state satisfying the invariant
+   `finv` (spelled out in C12_full_wellformed).  This is C12_bookkeeping_bounded's "no panic" for the REAL sampler:
+   connectionStateMap entries, A0 candidates, ack points, max-ack-height tracker included. *)
+Theorem C12_full_never_panics : forall P m icw mcw es, params_ok m icw mcw -> fevs_ok m es ->
+  exists st, frun P (new_full P m icw mcw) es = Ok st /\ finv P st.
+Proof.
+  intros P m icw mcw es Hp He. destruct (reachable_inv P m icw mcw es Hp He) as (st & E & I & _). eauto.
+Qed.
+Print Assumptions C12_full_never_panics.
+
+(* (b) Well-formedness of every reachable state: the mode is one of the four, the gains are table values for the mode
+   (STARTUP: highGain / highCwndGain; DRAIN: 1/highGain / highCwndGain; PROBE_BW: an entry of the pacingGain cycle /
+   congestionWindowGainConstant; PROBE_RTT: 1.0), DRAIN and PROBE_BW are only entered at full bandwidth, the gain
+   cycle index is in range, both containers satisfy their representation invariants. *)
+Theorem C12_full_wellformed : forall P m icw mcw es st, params_ok m icw mcw -> fevs_ok m es ->
+  frun P (new_full P m icw mcw) es = Ok st ->
+  let w := fw st in let mm := fm st in
+  ((mode w = c12_modeStartup /\ m_pacingGain mm = p_highGain P /\ m_cwndGain mm = p_highCwndGain P) \/
+   (mode w = c12_modeDrain /\ m_pacingGain mm = p_drainGain P /\ m_cwndGain mm = p_highCwndGain P /\ atFullBw w = true) \/
+   (mode w = c12_modeProbeBw /\ In (m_pacingGain mm) gain_table /\ m_cwndGain mm = p_cwndGainConst P /\ atFullBw w = true) \/
+   (mode w = c12_modeProbeRtt /\ m_pacingGain mm = f_one /\
+    (m_cwndGain mm = p_highCwndGain P \/ m_cwndGain mm = p_cwndGainConst P))) /\
+  0 <= m_cycleOff mm < c12_gainCycleLength /\ Z.of_nat (length gain_table) = c12_gainCycleLength /\
+  pq_wf cse cse0 (sm_csm (fs st)) /\ rb_wf (sm_a0 (fs st)) /\ winv w.
+Proof.
+  intros P m icw mcw es st Hp He E. destruct (reachable_inv P m icw mcw es Hp He) as (st1 & E1 & I & _).
+  rewrite E in E1. injection E1 as <-. destruct I as (W & (Wq & _ & Wa & _) & _ & G & O & _).
+  cbv zeta. split; [exact G|]. split; [exact O|]. split; [exact gain_table_len|]. auto.
+Qed.
+Print Assumptions C12_full_wellformed.
+
+(* (b) Mode transitions, statement by statement (maybeExitStartupOrDrain / maybeEnterOrExitProbeRtt as called by
+   OnCongestionEventEx; OnPacketSent and SetMaxDatagramSize do not touch the mode: f_sent_ok / set_mds_flags).
+   STARTUP is left only at full bandwidth; DRAIN only to PROBE_BW and only with in-flight <= target; PROBE_RTT is
+   entered only when min_rtt expired outside quiescence (pacing gain 1, exit time cleared or scheduled 200 ms ahead
+   when the in-flight is already small); it is left only with a scheduled exit time that has passed AND a round trip
+   since - to STARTUP before full bandwidth was reached, to PROBE_BW after - refreshing the min-RTT timestamp. *)
+Theorem C12_mode_transitions :
+  (forall P g full low rnd now g', exit_startup_or_drain P g full low rnd now = Ok g' ->
+     (gmode g = c12_modeStartup ->
+        (full = false /\ g' = g) \/
+        (full = true /\ low = false /\ gmode g' = c12_modeDrain /\ gpg g' = p_drainGain P) \/
+        (full = true /\ low = true /\ gmode g' = c12_modeProbeBw)) /\
+     (gmode g = c12_modeDrain -> (low = false /\ g' = g) \/ (low = true /\ gmode g' = c12_modeProbeBw)) /\
+     (gmode g <> c12_modeStartup -> gmode g <> c12_modeDrain -> g' = g)) /\
+  (forall P g full expired exq irs small exitAt rp ts rnd now g' ea rp' ts' al,
+     enter_exit_probe_rtt P g full expired exq irs small exitAt rp ts rnd now = Ok (g', ea, rp', ts', al) ->
+     (gmode g <> c12_modeProbeRtt -> gmode g' = c12_modeProbeRtt ->
+        expired = true /\ exq = false /\ gpg g' = f_one /\ al = true /\
+        ((small = false /\ ea = 0) \/ (small = true /\ ea = i64w (now + c12_probeRttTimeNs) /\ rp' = false))) /\
+     (gmode g <> c12_modeProbeRtt -> gmode g' <> c12_modeProbeRtt ->
+        g' = g /\ ea = exitAt /\ rp' = rp /\ ts' = ts /\ al = false) /\
+     (gmode g = c12_modeProbeRtt -> gmode g' <> c12_modeProbeRtt ->
+        exitAt <> 0 /\ 0 <= i64w (now - exitAt) /\ (rp = true \/ irs = true) /\ rp' = true /\ ts' = now /\ al = true /\
+        gmode g' = (if full then c12_modeProbeBw else c12_modeStartup)) /\
+     (gmode g = c12_modeProbeRtt -> gmode g' = c12_modeProbeRtt -> g' = g /\ al = true /\ ts' = ts)).
+Proof. split; [exact exit_startup_or_drain_edges|exact probe_rtt_edges]. Qed.
+Print Assumptions C12_mode_transitions.
+
+(* (c) C12_cwnd_range and C12_pacing_floor re-established on the full model, no oracle: in every reachable state
+   4*mds <= GetCongestionWindow <= maxCongestionWindow, and bandwidthForPacer() - PacingRate() computed by the model,
+   float fallback `highGain * BandwidthFromDelta(initialCongestionWindow, getMinRtt())` included - is defined for
+   every int64 value of rttStats.MinRTT() and is >= minBps = 65536 bytes/s. *)
+Theorem C12_full_cwnd_range : forall P m icw mcw es st, params_ok m icw mcw -> fevs_ok m es ->
+  frun P (new_full P m icw mcw) es = Ok st ->
+  c12_minCongestionWindowPackets * mds (fw st) <= f_get_cwnd st <= maxCW (fw st) /\
+  (forall rttMin, in64 rttMin -> exists bw, f_bw_for_pacer P st rttMin = Ok bw /\ c12_minBps <= bw).
+Proof.
+  intros P m icw mcw es st Hp He E. destruct (reachable_inv P m icw mcw es Hp He) as (st1 & E1 & I & _).
+  rewrite E in E1. injection E1 as <-. split.
+  - destruct I as (W & _). exact (get_cwnd_range (fw st) W).
+  - intros rttMin Hr. exact (full_pacing_floor P st rttMin I Hr).
+Qed.
+Print Assumptions C12_full_cwnd_range.
+
+(* (c) why: every step of the full model moves the window fields exactly as ONE step of layer 2's skeleton does, for
+   the oracle values the full model computes (target window from gain x BDP, mode and full-bandwidth flag from the
+   state machine, max ack height / excess / byte counts from the sampler) - so every layer 2 theorem proved "for all
+   oracle values" (C12_cwnd_range, C12_cwnd_range_step) holds of the full model. *)
+Theorem C12_full_refines_skeleton : forall P m icw mcw es e st st', params_ok m icw mcw ->
+  fevs_ok m (es ++ [e]) -> frun P (new_full P m icw mcw) es = Ok st -> fstep P st e = Ok st' ->
+  exists we, wstep (p_enableAckAgg P) (fw st) we = Ok (fw st') /\
+    match e, we with
+    | FSent _ bif pn _ _ _, WSent pn' bif' => pn' = pn /\ bif' = bif
+    | FCong _ prior _ _ acked lost, WCong prior' sa sl la hl _ =>
+        prior' = prior /\ sa = sum_bytes acked /\ sl = sum_bytes lost /\ la = last_acked_of acked /\ hl = negb (is_nil lost)
+    | FSetMds s, WSetMds s' => s' = s
+    | _, _ => False
+    end.
+Proof.
+  intros P m icw mcw es e st st' Hp He E Es.
+  destruct Hp as (Hm & Hi & Hx). destruct (new_full_inv P m icw mcw Hm Hi Hx) as (I0 & _).
+  destruct (fevs_ok_split P es (new_full P m icw mcw) e st I0 He E) as (_ & Hev & I).
+  destruct e as [now bif pn bytes retx rttMin|now prior rttMin rnd acked lost|s]; cbn [fstep] in Es.
+  - destruct (f_sent_ok P st now bif pn bytes retx rttMin I Hev) as (st1 & E1 & _ & FW & _).
+    rewrite Es in E1. injection E1 as <-. exists (WSent pn bif). cbn [wstep]. rewrite FW. split; [reflexivity|split; reflexivity].
+  - destruct (f_cong_ok P st now prior rttMin rnd acked lost I Hev) as (st1 & E1 & _ & _ & _ & o & FW).
+    rewrite Es in E1. injection E1 as <-.
+    exists (WCong prior (sum_bytes acked) (sum_bytes lost) (last_acked_of acked) (negb (is_nil lost)) o).
+    cbn [wstep]. rewrite FW. split; [reflexivity|repeat split; reflexivity].
+  - unfold f_set_mds in Es. destruct (set_mds (fw st) s) as [w'| |] eqn:E1; cbn [bind] in Es; try discriminate.
+    injection Es as <-. exists (WSetMds s). cbn [wstep fw]. split; [exact E1|reflexivity].
+Qed.
+Print Assumptions C12_full_refines_skeleton.
+
+(* (d) Towards "does not deadlock", on the full model, PARTIAL.  In every reachable state:
+   1. CanSend(b) holds for every b < 4*mds: since every outstanding packet is eventually acked or declared lost by
+      QUIC and OnCongestionEventEx sets bytesInFlight to prior - acked - lost, draining the in-flight below four
+      datagrams (in particular an ack or loss of everything outstanding) always re-enables sending, in every mode and
+      recovery state, whatever the bandwidth samples were;
+   2. the passage of time re-enables the pacer: for a sender seeded with a size <= InitialPacketSize (what
+      seedPacketSize yields; the pacer starts at InitialPacketSize, so its datagram size is never below the sender's),
+      either TimeUntilSend() is zero ("send now") or at the time it announces the budget covers one datagram of the
+      SENDER's size - exactly what HasPacingBudget tests - for the pacing bandwidth the model computes (>= 64 KB/s by
+      (c); the int64 products of the pacer need it below 1 TB/s).
+   MISSING: that CanSend holds after an ack while more than 4 datagrams stay in flight (false in general: the window
+   follows the target down), monotonicity of the budget after the wake-up time for arbitrarily late calls (the
+   pacer's product bandwidth x elapsed can wrap), convergence / throughput (no theorem, simulator evidence only). *)
+Theorem C12_full_never_stalled_partial : forall P m icw mcw es st, params_ok m icw mcw -> m <= c12_InitialPacketSize ->
+  fevs_ok m es -> frun P (new_full P m icw mcw) es = Ok st ->
+  (forall b, b < c12_minCongestionWindowPackets * mds (fw st) -> f_can_send st b = true) /\
+  (forall rttMin bw, f_bw_for_pacer P st rttMin = Ok bw -> bw < 1000000000000 ->
+     c12_minBps <= bw /\
+     (pacer_time_until_send (fpc st) bw = 0 \/
+      mds (fw st) <= pacer_budget (fpc st) bw (pacer_time_until_send (fpc st) bw))).
+Proof.
+  intros P m icw mcw es st Hp Hm He E. destruct (reachable_inv P m icw mcw es Hp He) as (st1 & E1 & I & PM).
+  rewrite E in E1. injection E1 as <-. split.
+  - intros b Hb. destruct I as (W & _). exact (can_send_below_min (fw st) b W Hb).
+  - intros rttMin bw Eb Hbw. split.
+    + unfold f_bw_for_pacer, bw_for_pacer_f in Eb. destruct (pacing_rate_f P (fw st) (fm st) rttMin); cbn [bind] in Eb; try discriminate.
+      injection Eb as <-. apply pacer_floor.
+    + exact (full_wakeup_has_budget P st rttMin bw I (PM Hm) Eb Hbw).
+Qed.
+Print Assumptions C12_full_never_stalled_partial.
+
+(* non-vacuity of layer 3: a well-formed history on the conservative profile (overestimate avoidance: A0 candidates in
+   use) - four packets (the first one sent with nothing in flight: the sampler's quiescence branch), an ack, a loss-only event, a datagram-size raise, another ack - runs to a state whose sampler
+   has acked 2400 bytes and lost 1200 *)
+Example C12_full_example :
+  let es := [FSent 1000000 0 0 1200 true 0; FSent 1100000 2400 1 1200 true 0; FSent 1200000 3600 2 1200 true 0;
+             FSent 1300000 4800 3 1200 true 0;
+             FCong 21000000 4800 20000000 0 [(0, 1200)] [];
+             FCong 45000000 3600 20000000 0 [] [(1, 1200)];
+             FSetMds 1452;
+             FCong 46000000 2400 20000000 3 [(2, 1200)] []] in
+  params_ok 1200 (32 * 1200) (20000 * 1200) /\ fevs_ok 1200 es /\
+  exists st, frun prof_conservative (new_full prof_conservative 1200 (32 * 1200) (20000 * 1200)) es = Ok st /\
+    sm_totalAcked (fs st) = 2400 /\ sm_totalLost (fs st) = 1200 /\ mds (fw st) = 1452 /\ p_mds (fpc st) = 1452 /\
+    mode (fw st) = c12_modeStartup /\ m_pacingRate (fm st) = 15360000 /\ cwnd (fw st) = 40800.
+Proof.
+  cbv zeta. split; [unfold params_ok; vm_compute; intuition discriminate|].
+  split.
+  - cbn [fevs_ok fev_ok]. unfold time_ok, in64, c12_MaxPacketBufferSize. repeat split; try lia; try (left; discriminate); try (right; discriminate).
+  - eexists. split; [vm_compute; reflexivity|]. vm_compute. repeat split; reflexivity.
+Qed.
